@@ -8,7 +8,7 @@
    limiter and MustRefuse calls of the extension; [life_run] a Start/Shutdown history.
    The limit predicates, checker constructors and Validate are Generated.MemLimiter18 (T1). *)
 From Verif Require Import Common.Base Generated.MemLimiter18 C18.Model C18.Proofs C18.ProofsShare C18.ProofsSys C18.ProofsFine C18.ProofsTotal
-  Generated.C18ApiExt Generated.C18ApiProc C18.Audit C18.Obligations C18.Harness C18.Clauses C18.ClausesSound.
+  Generated.C18ApiExt Generated.C18ApiProc C18.Audit C18.Obligations C18.Harness C18.Clauses C18.ClausesSound C18.ClausesSound2.
 From Coq Require String.
 Local Open Scope Z_scope.
 
@@ -339,6 +339,58 @@ Theorem model_satisfies_life_clauses : forall ops,
   hviol life_viol life_next 0 ops (life_obs_run life0 ops) = [].
 Proof. exact (fun ops => model_life_ok ops life0 ProofsFine.life0_inv). Qed.
 
+(* soundness of the remaining clause checkers *)
+Theorem clauses_sound_sys : forall l ops obs s0,
+  hviol (sys_viol l) sys_next s0 ops obs = [] <-> hclause sys_next (sys_clause l) s0 ops obs.
+Proof. exact sys_history_sound. Qed.
+
+Theorem clauses_sound_fine : forall l ops obs s0,
+  hviol (fine_viol l) (fine_next l) s0 ops obs = [] <-> hclause (fine_next l) (fine_clause l) s0 ops obs.
+Proof. exact fine_history_sound. Qed.
+
+Theorem clauses_sound_config : forall c total verr outcome chk,
+  config_viol c total verr outcome chk = [] <-> config_clause c total verr chk.
+Proof. exact config_viol_sound. Qed.
+
+Theorem clauses_sound_share : forall l, share_ok l = true <-> ForallOrdPairs share_rel l.
+Proof. exact share_ok_spec. Qed.
+
+(* ---- THE LINK: for every input / history / schedule, what the MODEL produces — observed the way
+   the harness observes the implementation (run_obs, gate_run, life_obs_run, sys_run, frun,
+   outcome_obs, factory_run) — passes the checker.  No hypothesis beyond "a limiter is built":
+   for limiters that are not well formed the checker is switched off (wfb), exactly like the
+   theorems need wf.  CFine: the held checks read the same value before and after a GC
+   (uniform_op), as the harness's do — the checker's verdict for a held check is on t_r1 (the GC
+   count of a held check is not observed), so for t_r1 <> t_r2 it would over-demand; CConfig:
+   the fields are in the uint32 range of the Go struct. *)
+Theorem model_passes_checker_run : forall cfg total ticks l, new_limiter cfg total = Some l ->
+  prop_ok (CRun cfg total ticks (run_obs l (st0 0) ticks)) = true.
+Proof. exact model_passes_run. Qed.
+
+Theorem model_passes_checker_gate : forall cfg total ops l, new_limiter cfg total = Some l ->
+  prop_ok (CGate cfg total ops (snd (gate_run l (st0 0) ops))) = true.
+Proof. exact model_passes_gate. Qed.
+
+Theorem model_passes_checker_life : forall ops, prop_ok (CLife ops (life_obs_run life0 ops)) = true.
+Proof. exact model_passes_life. Qed.
+
+Theorem model_passes_checker_sys : forall cfg total ops l, new_limiter cfg total = Some l ->
+  prop_ok (CSys cfg total ops (snd (sys_run l (sys0 0) ops))) = true.
+Proof. exact model_passes_sys. Qed.
+
+Theorem model_passes_checker_fine : forall cfg total ops l, new_limiter cfg total = Some l ->
+  Forall uniform_op ops ->
+  prop_ok (CFine cfg total ops (snd (frun l (fsys0 0) ops))) = true.
+Proof. exact model_passes_fine. Qed.
+
+Theorem model_passes_checker_config : forall c total, config_in_range c ->
+  prop_ok (CConfig c total (verr_code (validate c)) (fst (outcome_obs (new_outcome c total)))
+                   (snd (outcome_obs (new_outcome c total)))) = true.
+Proof. exact model_passes_config. Qed.
+
+Theorem model_passes_checker_share : forall calls, prop_ok (CShare calls (snd (factory_run [] calls))) = true.
+Proof. exact model_passes_share. Qed.
+
 Print Assumptions refuse_iff_soft.
 Print Assumptions refuse_iff_soft_validated.
 Print Assumptions refuse_is_above_soft.
@@ -384,3 +436,14 @@ Print Assumptions clauses_sound_gate.
 Print Assumptions clauses_sound_life.
 Print Assumptions model_satisfies_run_clauses.
 Print Assumptions model_satisfies_life_clauses.
+Print Assumptions clauses_sound_sys.
+Print Assumptions clauses_sound_fine.
+Print Assumptions clauses_sound_config.
+Print Assumptions clauses_sound_share.
+Print Assumptions model_passes_checker_run.
+Print Assumptions model_passes_checker_gate.
+Print Assumptions model_passes_checker_life.
+Print Assumptions model_passes_checker_sys.
+Print Assumptions model_passes_checker_fine.
+Print Assumptions model_passes_checker_config.
+Print Assumptions model_passes_checker_share.
